@@ -132,6 +132,24 @@ def setSlice (a : Poly) (start stop step : Option Int) (v : RVal) : Except Err P
   let r ← a.indices start stop step
   a.setIdx r v
 
+/-- the mutating API as data: `a[i]=v`, `a[list]=v`, `a[s:e:st]=v`, `a.dim=d` -/
+inductive MutOp
+  | setInt (i : Int) (v : Int)
+  | setIdx (idx : List Int) (v : RVal)
+  | setSlice (start stop step : Option Int) (v : RVal)
+  | setDim (d : Nat)
+
+def applyOp (a : Poly) : MutOp → Except Err Poly
+  | .setInt i v => a.setInt i v
+  | .setIdx idx v => a.setIdx idx v
+  | .setSlice s e st v => a.setSlice s e st v
+  | .setDim d => a.setDim d
+
+/-- a history of mutations of one object; the first refused one ends it -/
+def applyOps (a : Poly) : List MutOp → Except Err Poly
+  | [] => .ok a
+  | o :: os => do let a' ← a.applyOp o; applyOps a' os
+
 /-- `a // b` -/
 def concat (a b : Poly) : Poly := ⟨a.ival ++ b.ival, a.size⟩
 
